@@ -158,11 +158,14 @@ fn same_msg(a: &DistMsg, b: &DistMsg) -> bool {
 }
 
 /// one execution per framing mode: every operation of the list on one connection
-fn inputs_exec(dist_hdr: bool, thorough: bool, ctx: &WorkerCtx) -> ExecResult {
+fn inputs_exec(dist_hdr: bool, thorough: bool, ctx: &WorkerCtx) -> ExecResult { inputs_exec2((dist_hdr, dist_hdr), thorough, ctx) }
+
+/// `who` = (this side asks for distribution headers, the peer offers them): headers are in force only when both do.
+fn inputs_exec2(who: (bool, bool), thorough: bool, ctx: &WorkerCtx) -> ExecResult {
+    let dist_hdr = who.0 && who.1;
     run_rt(async move {
         let mut res = ExecResult::default();
-        let extra = if dist_hdr { DIST_HDR } else { 0 };
-        let mut cw = match conn_world(ctx, flags_default() | extra, flags_default() | extra).await {
+        let mut cw = match conn_world(ctx, flags_default() | if who.0 { DIST_HDR } else { 0 }, flags_default() | if who.1 { DIST_HDR } else { 0 }).await {
             Ok(x) => x,
             Err(e) => { res.violations.push(("could not establish the connection under a conforming peer".into(), json!({"error": e}))); return res; }
         };
@@ -183,6 +186,12 @@ fn inputs_exec(dist_hdr: bool, thorough: bool, ctx: &WorkerCtx) -> ExecResult {
                 let bad = cw.conn.send_message(pid_plain(1), pid_remote(1), OwnedTerm::Tuple(vec![OwnedTerm::Integer(nth as i64), OwnedTerm::Atom(Atom::new("x".repeat(70_000)))])).await;
                 cw.w.settle(&mut cw.peer, &no_probe).await;
                 if bad.is_ok() || cw.peer.log.len() != before { res.violations.push(("an operation with an unencodable payload succeeded or wrote bytes".into(), json!({"returned_ok": bad.is_ok(), "bytes_written": cw.peer.log.len() - before}))); }
+            }
+            if nth == 5 || nth == 23 {
+                // a second connect() on the established connection is refused and changes nothing: the operations that
+                // follow still reach the peer of the session
+                let again = tokio::time::timeout(std::time::Duration::from_secs(30), cw.conn.connect()).await;
+                if !matches!(again, Ok(Err(_))) || !cw.conn.is_connected() { res.violations.push(("a second connect() on an established connection is not refused or ends the session".into(), json!({"after_operations": nth - 1, "returned": format!("{:?}", again.map(|r| r.map_err(|e| e.to_string())))}))); }
             }
             // the peer keeps reading while the operation is in progress (a frame larger than the socket buffers would
             // otherwise wait for a reader that never comes)
@@ -633,6 +642,8 @@ pub fn run(rep: &Report) -> Value {
     let thorough = rep.thorough();
     let modes = [false, true];
     let st_inputs: Stats = for_all(rep, "operations x arguments x framing mode", &modes, |m, ctx| inputs_exec(*m, thorough, ctx));
+    let mixed = [(false, true), (true, false)];
+    let st_mixed: Stats = for_all(rep, "operations x arguments when only one side offers distribution headers", &mixed, |m, ctx| inputs_exec2(*m, false, ctx));
     let kinds = [0usize, 1, 2, 3, 4, 5];
     let st_unc: Stats = for_all(rep, "operations before the handshake completed", &kinds, |k, ctx| unconnected_exec(*k, ctx));
     let rots = [0usize, 1, 2, 3];
@@ -652,7 +663,7 @@ pub fn run(rep: &Report) -> Value {
         let st = explore(rep, &name, b, std::time::Duration::from_secs(if thorough { 600 } else { 30 }), |ch, ctx| concurrent(ch, ctx, t, p, burst));
         conc.push((name, st));
     }
-    let states = st_stallc.executions + st_inputs.executions + st_unc.executions + st_re.executions + st_stall.executions + st_hb.executions + st_rep.executions + conc.iter().map(|c| c.1.executions).sum::<u64>();
+    let states = st_mixed.executions + st_stallc.executions + st_inputs.executions + st_unc.executions + st_re.executions + st_stall.executions + st_hb.executions + st_rep.executions + conc.iter().map(|c| c.1.executions).sum::<u64>();
     let transitions = st_inputs.transitions + st_unc.transitions + st_re.transitions + conc.iter().map(|c| c.1.transitions).sum::<u64>();
     let mut samples = vec![json!({"operation": op_list(false)[3].short()}), json!({"operation": op_list(false)[op_list(false).len() - 5].short()})];
     for c in &conc { samples.extend(c.1.samples.iter().take(1).cloned()); }
